@@ -6,6 +6,8 @@ package main
 
 import (
 	"fmt"
+	"net/http"
+	"net/url"
 	"strings"
 
 	"foxverif/kit"
@@ -48,6 +50,7 @@ func main() {
 		}
 		rec()
 	})
+	redirectGuard(run)
 	run.SetExtra("exhaustive_subspace", fmt.Sprintf("every string over %q up to length %d: enumerated completely", alphabet, maxLen))
 	pieces := []string{"/", "//", "a", "ab", ".", "..", "/./", "/../", "é", "日本", "%2F", "%2e", "a.b", "...", "x/", "/x", "..a", "a..", " "}
 	n := run.Pick(8000, 200000)
@@ -67,6 +70,15 @@ func main() {
 			}
 			s := sb.String()
 			one(run, s)
+			// a long clean prefix followed by the first thing to rewrite: the lazily allocated buffer is first needed
+			// beyond the 128-byte stack buffer
+			clean := "/" + strings.Repeat("a", 1+r.IntN(9))
+			for len(clean) < 118+r.IntN(24) {
+				clean += "/" + strings.Repeat(string(rune('a'+r.IntN(3))), 1+r.IntN(9))
+			}
+			tail := []string{"//b", "/./b", "/../b", "/.", "/..", "//", "/b/../c", "/b/./", "/é//x"}[r.IntN(9)]
+			one(run, clean+tail)
+			one(run, clean[1:]+tail)
 			// exact lengths around the buffer edge
 			for _, l := range []int{126, 127, 128, 129} {
 				if len(s) >= l {
@@ -75,6 +87,68 @@ func main() {
 			}
 		}
 	})
+}
+
+type redirW struct {
+	h      http.Header
+	status int
+}
+
+func (w *redirW) Header() http.Header         { return w.h }
+func (w *redirW) Write(b []byte) (int, error) { return len(b), nil }
+func (w *redirW) WriteHeader(c int) {
+	if w.status == 0 {
+		w.status = c
+	}
+}
+
+// redirectGuard: a trailing-slash redirect is only ever issued for request paths already in clean form.
+func redirectGuard(run *kit.Run) {
+	f, err := fox.New(fox.WithRedirectTrailingSlash(true))
+	if err != nil {
+		run.Inconclusive("fox.New: %v", err)
+		return
+	}
+	h := func(fox.Context) {}
+	for _, p := range []string{"/foo/{a}/", "/bar/*{rest}/", "/s/t/", "/u/{a}", "/v/w", "/x/{a}/y/", "/z/id:{a}/", "/deep/{a}/{b}/"} {
+		f.MustHandle("GET", p, h)
+	}
+	bases := []string{"/foo/a", "/bar/x/y", "/s/t", "/u/a/", "/v/w/", "/x/a/y", "/z/id:a", "/deep/a/b", "/foo/a/", "/bar/x/y/", "/s/t/"}
+	dirt := []string{"", "/", "//", "/.", "/./", "/..", "/../", "/x/..", "/./."}
+	n := 0
+	for _, b := range bases {
+		for _, d1 := range dirt {
+			for _, d2 := range dirt {
+				for _, where := range []int{0, 1, 2} {
+					var p string
+					switch where {
+					case 0:
+						p = b + d1 + d2
+					case 1:
+						p = d1 + b + d2
+					default:
+						k := strings.LastIndexByte(strings.TrimSuffix(b, "/"), '/')
+						p = b[:k] + d1 + b[k:] + d2
+					}
+					if p == "" || p[0] != '/' {
+						continue
+					}
+					w := &redirW{h: http.Header{}}
+					f.ServeHTTP(w, &http.Request{Method: "GET", URL: &url.URL{Path: p}, Header: http.Header{}, Proto: "HTTP/1.1", ProtoMajor: 1, ProtoMinor: 1})
+					n++
+					clean := ref.CleanPath(p)
+					run.Case("redirect|"+p, p != clean)
+					if w.status >= 300 && w.status < 400 {
+						run.Count("redirects_observed", 1)
+						if p != clean {
+							run.Violate(fmt.Sprintf("redirect-unclean|%q", p), fmt.Sprintf("a trailing-slash redirect (status %d, Location %q) was issued for the request path %q, which is not in clean form (%q)", w.status, w.h.Get("Location"), p, clean), map[string]string{"path": p})
+						}
+					}
+				}
+			}
+		}
+	}
+	run.Count("redirect_guard_requests", int64(n))
 }
 
 func one(run *kit.Run, p string) {
